@@ -7,7 +7,13 @@
 (*           passed at construction, or a second valid value)               *)
 (*   fitted  is_fitted                                                      *)
 (* Tracked names: up to two plain parameters "p1","p2", for composites one   *)
-(* nested component parameter "c__p" and one whole component "c".            *)
+(* nested component parameter "c__p", one parameter two or more levels down  *)
+(* "c__c__p", and one whole component "c".                                   *)
+(* A sibling is a second estimator built from the very same argument objects *)
+(* (same component list, same component instances).  Plain parameters and    *)
+(* the component list are per object; the component objects themselves are   *)
+(* shared, so a nested write through one estimator is visible through the    *)
+(* other -- and nothing else is (SibParams).                                 *)
 (* Operations are public calls; each returns an observation                 *)
 (*   [rej (kind of rejection: "" | "unknown" | "notfitted" | "other"),       *)
 (*    params (what get_params shows for the tracked names), fitted, self]    *)
@@ -19,6 +25,9 @@ VARIABLES params, fitted
 evars == <<params, fitted>>
 
 Fresh == [n \in Names |-> "orig"]
+Nested == {"c__p", "c__c__p"}
+\* what get_params of the sibling shows while this estimator's parameters are p
+SibParams(p) == [n \in Names |-> IF n \in Nested THEN p[n] ELSE "orig"]
 EInit == params = Fresh /\ fitted = FALSE
 Obs(rej, p, f, self) == [rej |-> rej, params |-> p, fitted |-> f, self |-> self]
 
